@@ -85,9 +85,8 @@ Proof.
       specialize (IHt t' v). unfold ty_sound in *.
       destruct (vt f jm e t' v) as [[|]|]; auto; [eapply M_ref|eapply F_ref]; eauto.
     + pose proof (IHt a v) as Ha. pose proof (IHt b v) as Hb. unfold ty_sound in *.
-      destruct (vt f jm e a v) as [[|]|]; auto.
-      * apply M_or1; auto.
-      * destruct (vt f jm e b v) as [[|]|]; auto; [apply M_or2|apply F_or]; auto.
+      destruct (vt f jm e a v) as [[|]|]; destruct (vt f jm e b v) as [[|]|]; auto;
+        try (apply M_or1; auto; fail); try (apply M_or2; auto; fail). apply F_or; auto.
     + pose proof (IHt t' v) as Ht. unfold ty_sound in Ht |- *.
       destruct (vt f jm e t' v) as [[|]|]; auto; [|apply F_ctl_target; auto].
       destruct (is_and c) eqn:Ea.
@@ -159,7 +158,9 @@ Proof.
     constructor; auto.
   - (* valts *)
     intros alts ps. cbn [valts]. destruct alts as [|es alts]; [cbn; constructor|].
-    destruct (vcols f jm e es ps) as [cols|] eqn:Ec; [|exact I].
+    destruct (vcols f jm e es ps) as [cols|] eqn:Ec.
+    2:{ pose proof (IHa alts ps) as Ha. unfold alts_sound in Ha |- *.
+        destruct (valts f jm e alts ps) as [[|]|]; auto. apply A_later; auto. }
     apply IHcs in Ec.
     destruct (decide_map es cols) eqn:Ed.
     + cbn. apply decide_map_true in Ed as (a & Ha). eapply A_here; eauto.
